@@ -54,7 +54,7 @@ def strategy(draw, tier):
     return {'fs': band['fs'], 'f_range': band['f_range'], 'sigs': sigs, 'axis': axis, 'mode': mode, 'opts': opts,
             'n_jobs': draw(st.sampled_from([1, 2, 2, 5, -1])), 'return_samples': draw(st.sampled_from([True, True, False])),
             'via': draw(st.sampled_from(['func', 'group'])), 'refit': draw(st.booleans()),
-            'progress': draw(st.sampled_from([None, None, 'tqdm']))}
+            'progress': draw(st.sampled_from([None, None, 'tqdm'])), 'layout': draw(st.sampled_from(['C', 'C', 'F', 'T']))}
 
 
 def slice_reference(block, fs, fr, kw):
@@ -66,6 +66,10 @@ def slice_reference(block, fs, fr, kw):
 def check(case, rec):
     fs, fr = case['fs'], tuple(case['f_range'])
     X = np.array([[gen.render_signal(s) for s in row] for row in case['sigs']])
+    if case.get('layout') == 'F':
+        X = np.asfortranarray(X)            # same values and shape, column-major memory (e.g. data loaded from MATLAB files)
+    elif case.get('layout') == 'T':
+        X = np.ascontiguousarray(np.swapaxes(X, 0, 1)).swapaxes(0, 1)     # a swapaxes view
     n0, n1 = X.shape[:2]
     axis = tuple(case['axis']) if isinstance(case['axis'], list) else case['axis']
     mode, opts = case['mode'], case['opts']
@@ -136,7 +140,7 @@ def check(case, rec):
     distinct = all(not ref.frames_equal(tabs[a], tabs[b])[0] for a in range(len(tabs)) for b in range(a))
     differing = mode == 'list' and len({gen.case_key_json(opt_for(i, j)) for i in range(n0) for j in range(n1)}) > 1
     nj = 16 if case['n_jobs'] == -1 else case['n_jobs']
-    rec.label('shape:%dx%d' % (n0, n1), 'axis:%s' % (axis,), 'mode:' + mode, 'via:' + via, 'n_jobs:%s' % case['n_jobs'],
+    rec.label('shape:%dx%d' % (n0, n1), 'axis:%s' % (axis,), 'mode:' + mode, 'via:' + via, 'n_jobs:%s' % case['n_jobs'], 'layout:%s' % case.get('layout', 'C'),
               'distinct' if distinct else 'duplicate-tables', 'refit' if (via == 'group' and case['refit']) else 'single-fit')
     rec.nontrivial((n0 != n1 or (n0 >= 2 and n1 >= 2)) and distinct and (differing or nj >= 2))
 
